@@ -109,6 +109,14 @@ class ADef(Abstract):
 
 
 def _sort_key(d: Any) -> Any:
+    if type(d).__name__ == "AObj":
+        # a definition object built by its own constructor: its properties are evaluated from the source
+        from ..absint import aobj_member
+        from ..fold import _CURRENT
+
+        f = _CURRENT[-1] if _CURRENT else Folder({}, d._ctx_.repo, d._cls_.module, d._cls_, None)
+        name, v = aobj_member(f, d, "full_name"), aobj_member(f, d, "version")
+        return (name, -v[0], -v[1])
     return (d.full_name, -d.version.major, -d.version.minor)
 
 
@@ -288,3 +296,89 @@ def read_own(ctx: Ctx, d: Any, lookups: List[Any], times: int = 1, parse_fails: 
         except Unfoldable as ex:
             raise AnalysisError("DSDLDefinition.read: cannot evaluate over the abstract world: %s" % ex)
     return out
+
+
+# ----------------------------------------------------------------------------------------------------------------------
+# entry points end to end: read_namespace / read_files evaluated from the source over an abstract file system, with the only
+# thing stubbed being the reading of one file (DSDLDefinition.read - which opens, parses and builds): the stub records which
+# file it was asked to read, resolves the file's declared references against the lookup list *it was given* (by name and
+# version), reads those in turn and reports them to the visitors - the documented protocol of ReadableDSDLFile.read.
+class EntryRun:
+    def __init__(self) -> None:
+        self.reads: List[str] = []  # file paths, in order, every call of read() that had to build
+        self.raised: Optional[str] = None
+        self.result: Any = None
+        self.lookup_lists: List[List[str]] = []
+
+
+def run_entry(ctx: Ctx, entry: str, args: List[Any], files: Dict[str, List[Tuple[str, int, int]]], kwargs: Optional[Dict[str, Any]] = None, broken: Sequence[str] = ()) -> EntryRun:
+    """files: path -> references [(full name, major, minor)] of the definition in that file; `broken`: paths whose read fails
+    (a definition that violates some rule)"""
+    from ..absint import AObj, call_fn
+    from ..core import dotted as _dotted
+    from .c11 import _definition
+    from .c15 import _prop
+
+    fn = ctx.func("_namespace." + entry)
+    dcls = ctx.cls("_dsdl_definition.DSDLDefinition")
+    cached_attr = None
+    ct = ctx.repo.lookup_method(dcls, "composite_type")
+    if ct is not None:
+        for n in ast.walk(ct.node):
+            if isinstance(n, ast.Return) and isinstance(n.value, ast.Attribute) and isinstance(n.value.value, ast.Name) and n.value.value.id == "self":
+                cached_attr = n.value.attr
+    if cached_attr is None:
+        raise AnalysisError("DSDLDefinition.composite_type is not a plain accessor of a field: the per-file read cannot be stubbed")
+    run = EntryRun()
+    saved = list(APath.FS)
+    APath.FS = list(files)
+    base = _hook(ctx, fn.module, [], record=[])
+
+    def path_of(d: Any) -> str:
+        return str(_prop(ctx, d, "file_path"))
+
+    def stub_read(d: Any, lookups: Any, visitors: Any, handler: Any, *rest: Any) -> Any:
+        have = d.__dict__.get(cached_attr)
+        if have is not None:
+            return have
+        p = path_of(d)
+        run.reads.append(p)
+        lk = list(lookups)
+        run.lookup_lists.append(sorted(path_of(x) for x in lk))
+        if p in broken:
+            raise Raised("InvalidDefinitionError", ast.parse("read()").body[0])
+        v = _prop(ctx, d, "version")
+        for name, ma, mi in files.get(p, []):
+            found = [x for x in lk if _prop(ctx, x, "full_name") == name and tuple(_prop(ctx, x, "version")) == (ma, mi) and x is not d]
+            if len(found) != 1:
+                raise Raised("UndefinedDataTypeError" if not found else "DataTypeCollisionError", ast.parse("read()").body[0])
+            stub_read(found[0], [x for x in lk if x is not d], visitors, handler, *rest)
+            for vis in list(visitors):
+                vis.on_definition(d, found[0])
+        t = _definition(ctx, _prop(ctx, d, "full_name"), v[0], v[1], False, _prop(ctx, d, "fixed_port_id"))
+        t.source_file_path = p
+        d.__dict__[cached_attr] = t
+        return t
+
+    def hook(e: ast.expr, f: Folder) -> Any:
+        if isinstance(e, ast.Call) and isinstance(e.func, ast.Attribute) and e.func.attr == "read" and (_dotted(e.func.value) or "?").split(".")[0] in f.env:
+            recv = f.fold(e.func.value)
+            if isinstance(recv, AObj) and recv._cls_ is dcls:
+                a = [f.fold(x) for x in e.args]
+                kw = {k.arg: f.fold(k.value) for k in e.keywords if k.arg}
+                names = ["lookup_definitions", "definition_visitors", "print_output_handler", "allow_unregulated_fixed_port_id"]
+                for nm in names[len(a):]:
+                    if nm in kw:
+                        a.append(kw[nm])
+                return stub_read(recv, *a)
+        return base(e, f)
+
+    try:
+        run.result = call_fn(ctx, fn, args, kwargs or {}, hook=hook, keep=tuple(fn.module.functions))
+    except Raised as r:
+        run.raised = r.cls_name
+    except Unfoldable as ex:
+        raise AnalysisError("%s: cannot evaluate over the abstract file system: %s" % (fn.short, ex))
+    finally:
+        APath.FS = saved
+    return run
